@@ -180,6 +180,11 @@ class SpecMixin:
             if nm == 'fp_same':
                 return a == b
             return {'fp_ge': z3.fpGEQ, 'fp_gt': z3.fpGT, 'fp_lt': z3.fpLT, 'fp_le': z3.fpLEQ, 'fp_eq': z3.fpEQ}[nm](a, b)
+        if nm == 'concat':
+            vals = [to_str(self.ev(a, st, fr)) for a in node.args]
+            return z3.Concat(*vals)
+        if nm in ('str_lower', 'str_upper'):
+            return z3.Function(nm, z3.StringSort(), z3.StringSort())(to_str(self.ev(node.args[0], st, fr)))
         if nm == 'has_key':
             m = self.ev(node.args[0], st, fr)
             keys = [to_int(self.ev(a, st, fr)) for a in node.args[1:]]
